@@ -9,6 +9,8 @@ CONFIGS = {
     "one-way": dict(app=True),
     "two-way": dict(app=True, both_write=True),
     "back-pressure": dict(app=True, throttle=True),
+    # two subchannels opened and written to before the receiving application listens (OPEN/DATA held for a future listen)
+    "listen-late": dict(app=True, listen_late=True),
     # a write whose encoded record falls between Noise's payload limit (65519) and its message limit (65535): it has to be split
     "one-way-big-write": dict(app=True, big_write=True),
 }
